@@ -140,7 +140,7 @@ func TestC11(t *testing.T) {
 	for cmd := 0; cmd < 16; cmd++ {
 		for seq := 0; seq < 16; seq++ {
 			for num := 0; num < 2; num++ {
-				for _, fb := range []int{0, 1, 62, 63} {
+				for _, fb := range []int{0, 1, 62, 63, 64, 65, 127, 128, 191, 192, 255} {
 					f := base
 					f.Cmd, f.Seqn, f.Numbered, f.Data = cmd, seq, num, []int{fb}
 					logLData(o, f)
